@@ -230,6 +230,7 @@ class Sched:
                 t.real.join(0.5)
 
     killing = False
+    STUCK_S = 40
 
     def switch(self, dying=False, kind="?"):
         me = self.cur()
@@ -275,7 +276,20 @@ class Sched:
         self.current = nxt
         nxt.gate.release()
         if not dying:
-            me.gate.acquire()
+            if me is self.main:
+                # the driver also watches the baton: a task that keeps it for STUCK_S wall seconds is blocked inside a real
+                # (not substituted) blocking primitive - nothing the scheduler can schedule around; inconclusive, with the stack
+                while not me.gate.acquire(timeout=self.STUCK_S):
+                    holder = self.current
+                    if holder is me:
+                        continue
+                    self.killing = True
+                    self.current = me
+                    where = self.stacks().get(getattr(holder, "name", None), [])
+                    raise WallClock("task %s kept the baton for %d wall seconds (blocked outside the scheduler's stand-ins): %s" % (
+                        getattr(holder, "name", "?"), self.STUCK_S, " | ".join(where[-3:])))
+            else:
+                me.gate.acquire()
             exc = me.wake_exc
             if exc is not None:
                 me.wake_exc = None
